@@ -165,6 +165,36 @@ def run(ctx: core.Ctx):
                     want_h = cfg["max_h"] if cls == "tooBig" else cfg["min_h"]
                     if r["outcome"] != "design" or r["nbh"] != want_n or abs(r["H"] - want_h) > 1e-9:
                         ctx.finding("unmet-fallback-wrong", f"{g}: unmet ({cls}) with the flag returned {r.get('nbh')} x {r.get('H')}, expected {want_n} x {want_h}", rep)
+    # ---------------- (iv) a second project on the SAME manager (only loads and geometry re-applied)
+    by_id = {r["id"]: (c, r) for c, r in zip(cfgs, recs)}
+    for cfg, r in zip(cfgs, recs):
+        sec = r.get("second")
+        if not sec:
+            continue
+        cb, rb = by_id.get(sec["id"], (None, None))
+        if cb is None:
+            continue
+        g = cb["geom"][0]
+        ctx.count(f"history:{sec['outcome'].split()[0]}")
+        ctx.case(("history", r["id"], sec["id"]), True, {"first": r["id"], "second": sec["id"], "geom": g, "outcome": sec["outcome"], "nbh": sec.get("nbh"), "H": sec.get("H")} if len(ctx.samples) < 6 else None)
+        rep = {"first_project": r["cfg"], "first_outcome": r["outcome"], "second_project": rb["cfg"], "second_on_same_manager": sec, "second_on_fresh_manager": {k: rb.get(k) for k in ("outcome", "nbh", "H", "message")}}
+        if sec["outcome"] == "harness-error":
+            ctx.infra(f"history {r['id']}->{sec['id']}: {sec.get('message')}")
+            continue
+        if sec["outcome"].startswith("raise"):
+            ctx.finding(f"history-exception-type-{sec['outcome'].split()[1]}-{g}", f"second project on a reused manager ({g}) ended with {sec['outcome']}: {sec.get('message')}", rep)
+            continue
+        if sec["outcome"] == "design":
+            if not (cb["min_h"] - 1e-9 <= sec["H"] <= cb["max_h"] + 1e-9):
+                ctx.finding("history-height-outside-window", f"{g}: second project on a reused manager returned height {sec['H']} outside [{cb['min_h']}, {cb['max_h']}]", rep)
+            cap = cb.get("max_boreholes")
+            if cap is not None and g != "ROWWISE" and sec["nbh"] > cap:
+                ctx.finding("history-cap-exceeded", f"{g}: second project on a reused manager returned {sec['nbh']} boreholes with max_boreholes={cap}", rep)
+        if sec.get("max_boreholes_after", cb.get("max_boreholes")) != cb.get("max_boreholes"):
+            ctx.finding("history-cap-parameter-changed", f"{g}: the manager's max_boreholes is {sec.get('max_boreholes_after')} after the run, the user set {cb.get('max_boreholes')}", rep)
+        same = sec["outcome"] == rb["outcome"] and (sec["outcome"] != "design" or (sec["nbh"] == rb["nbh"] and sec["H"] == rb["H"]))
+        if not same and rb["outcome"] != "harness-error":
+            ctx.finding("history-differs-from-fresh-manager", f"{g}: second project on a reused manager gave {sec['outcome']} {sec.get('nbh')} x {sec.get('H')}, a fresh manager with the same configuration gives {rb['outcome']} {rb.get('nbh')} x {rb.get('H')}", rep)
     if ctx.tier == "thorough":
         ctx.leanchecker(["GHEVerif.Props.C02"])
 
